@@ -51,10 +51,13 @@ def sync(repo):
     cmd += [repo.rstrip("/") + "/", WORK + "/"]
     subprocess.run(cmd, check=True)
     _INJECTED.clear()
+    global _SYNCED
+    _SYNCED = True
     # docs/spec/*.yaml are include_str!'d by the crate; they are part of the copy (docs is not excluded)
 
 
 _STAMPS = "/var/tmp/ilverif/inject_stamps.json"
+_SYNCED = False  # the scratch copy was synced from /repo by this process (injections accumulate on top of it)
 _INJECTED = {}   # path -> sha256 of the injected content, for the scratch copy as it is right now
 
 
